@@ -586,6 +586,7 @@ pub fn run_child(
         }
         _ => {}
     }
+    cmd.env("C10_TEMP_NAME", super::temp_name());
     cmd.arg(&exe)
         .arg("C10")
         .arg("--worker")
@@ -994,7 +995,7 @@ pub fn run_parts_2_3(ctx: &Ctx, tier: Tier, samples: &Samples) -> P23 {
             let n = &o.trace.events[j].name;
             (n.clone(), o.trace.events[..=j].iter().filter(|e| &e.name == n).count())
         });
-        let tmp_name = format!("{}.svspart", super::DEST_NAME);
+        let tmp_name = super::temp_name().to_string();
         let temp = o.after.get(&tmp_name);
         let hit = o.trace.killed && (o.signal == Some(9) || o.exit_code == Some(137));
         let mut err = None;
